@@ -133,7 +133,7 @@ func runE2ECases(t *testing.T, w *world, r *Rng, n int, side *Sidecar, firstIdx 
 				}
 			}
 		}
-		side.Case(idx, spec.String()+eO.summary(), gTr.gasUsed > 0, rep)
+		side.Case(caseKey(idx), spec.String()+eO.summary(), gTr.gasUsed > 0, rep)
 	}
 }
 
